@@ -38,7 +38,9 @@ def run_native(pid, obligation, test, log):
                        stdout=subprocess.PIPE, stderr=subprocess.STDOUT, text=True)
     log.write("\n[replay] cargo test %s\n%s\n" % (name, p.stdout[-3000:]))
     m = re.search(r"test result: (\w+)\. (\d+) passed; (\d+) failed", p.stdout)
-    if not m or int(m.group(2)) + int(m.group(3)) == 0:
+    if not m and re.search(r"\(signal: \d+", p.stdout) and ("Running tests/replay.rs" in p.stdout or "running 1 test" in p.stdout):
+        outcome = True  # the test process was killed (abort on a failed allocation, stack overflow, ...): a failing test
+    elif not m or int(m.group(2)) + int(m.group(3)) == 0:
         outcome = None
     else:
         outcome = int(m.group(3)) > 0
